@@ -45,6 +45,13 @@ SeqLife  == [c \in {"A", "B"} |-> IF c = "A" THEN <<"dlc", "dlc">> ELSE <<"dlc",
 SeqLifeT == [c \in {"A", "B"} |-> IF c = "A" THEN <<"dlc", "dlc", "dlc">> ELSE <<"dlc", "ldl", "dlc">>]
 Max43L   == [c \in {"A", "B"} |-> IF c = "A" THEN 4 ELSE 3]
 BAL      == {5}
+\* address reuse: a remote address disconnects and connects again to the same service while the first server-side
+\* socket is still there (CLOSE_WAIT, shut down) or was closed; then data both ways and DISC
+ReuseOps == [c \in {"A", "B"} |-> IF c = "A" THEN {"Socket", "BindAddr", "Listen", "Accept", "Recv", "DSend", "Close"}
+                                              ELSE {"Socket", "BindAddr", "ConnectAddr", "Recv", "DSend", "Close"}]
+SeqReuse == [c \in {"A", "B"} |-> IF c = "A" THEN <<"dlc">> ELSE <<"dlc", "dlc">>]
+Max32r   == [c \in {"A", "B"} |-> IF c = "A" THEN 3 ELSE 2]
+BA56     == {5, 6}
 \* link MIUs of the scaled model: A announces 3, B announces 2 (a sender may put as much as the RECEIVER announced)
 MiuAB == [c \in {"A", "B"} |-> IF c = "A" THEN 3 ELSE 2]
 =============================================================================
